@@ -188,7 +188,13 @@ impl Axecutor {
                         segment.p_offset,
                     );
 
-                    let memsz = round_up_to_page_size(segment.p_memsz);
+                    // The segment is extended up to the end of its last page. The rounding has to
+                    // be applied to the end address: a segment that does not start on a page
+                    // boundary would otherwise reach into the following page and collide with
+                    // the segment that lives there.
+                    let in_page_offset = segment.p_vaddr & 0xfff;
+                    let memsz =
+                        round_up_to_page_size(segment.p_memsz + in_page_offset) - in_page_offset;
 
                     if memsz == segment.p_filesz {
                         axecutor.mem_init_area_named(
